@@ -109,34 +109,48 @@ theorem distribute_outflow (fd : Denom) (F : Nat) (ft : Bool) (dev : Option Addr
     have e : df + liq + (F - df - liq) = F := by omega
     rw [e]; exact ⟨rfl, rfl⟩
 
-theorem fairBurn_eq (self : Addr) (F : Nat) (dev : Option Addr) :
-    Sg1.fairBurn self F dev =
+theorem fairBurn_none (self : Addr) (F : Nat) :
+    Sg1.fairBurn self F none =
       [ Msg.burn ⟨NATIVE, mulFloor F (percent Gen.sg1_FEE_BURN_PERCENT)⟩,
-        match dev with
-        | some dv => Msg.send dv ⟨NATIVE, F - mulFloor F (percent Gen.sg1_FEE_BURN_PERCENT)⟩
-        | none => Msg.fundPool self ⟨NATIVE, F - mulFloor F (percent Gen.sg1_FEE_BURN_PERCENT)⟩ ] := rfl
+        Msg.fundPool self ⟨NATIVE, F - mulFloor F (percent Gen.sg1_FEE_BURN_PERCENT)⟩ ] := rfl
 
-theorem burn_then_flow (d : Denom) (m : Msg) (x y : Nat) (hm : m.denom = NATIVE) (ha : m.amount = y) (hd : msgDest m ≠ none) :
-    outflow d [Msg.burn ⟨NATIVE, x⟩, m] = (if NATIVE = d then x + y else 0) ∧
-    burnt d [Msg.burn ⟨NATIVE, x⟩, m] = (if NATIVE = d then x else 0) := by
-  simp only [outflow, burnt, msgDest, Msg.denom, Msg.amount, hm, ha]
-  by_cases h : NATIVE = d <;> simp [h, hd]
+theorem fairBurn_some (self : Addr) (F : Nat) (dv : Addr) :
+    Sg1.fairBurn self F (some dv) =
+      [ Msg.burn ⟨NATIVE, mulFloor F (percent Gen.sg1_FEE_BURN_PERCENT)⟩,
+        Msg.send dv ⟨NATIVE, F - mulFloor F (percent Gen.sg1_FEE_BURN_PERCENT)⟩ ] := rfl
+
+theorem burn_send_flow (d : Denom) (a : Addr) (x y : Nat) :
+    outflow d [Msg.burn ⟨NATIVE, x⟩, Msg.send a ⟨NATIVE, y⟩] = (if NATIVE = d then x + y else 0) ∧
+    burnt d [Msg.burn ⟨NATIVE, x⟩, Msg.send a ⟨NATIVE, y⟩] = (if NATIVE = d then x else 0) := by
+  simp only [outflow, burnt, msgDest, Msg.denom, Msg.amount]
+  by_cases h : NATIVE = d <;> simp [h]
+
+theorem burn_pool_flow (d : Denom) (s : Addr) (x y : Nat) :
+    outflow d [Msg.burn ⟨NATIVE, x⟩, Msg.fundPool s ⟨NATIVE, y⟩] = (if NATIVE = d then x + y else 0) ∧
+    burnt d [Msg.burn ⟨NATIVE, x⟩, Msg.fundPool s ⟨NATIVE, y⟩] = (if NATIVE = d then x else 0) := by
+  simp only [outflow, burnt, msgDest, Msg.denom, Msg.amount]
+  by_cases h : NATIVE = d <;> simp [h]
 
 /-- `fair_burn` disposes of exactly the fee in the native denom; the burnt part is `floor(fee × FEE_BURN_PERCENT%)` -/
 theorem fairBurn_outflow (self : Addr) (F : Nat) (dev : Option Addr) (d : Denom) :
     outflow d (Sg1.fairBurn self F dev) = (if NATIVE = d then F else 0) ∧
     burnt d (Sg1.fairBurn self F dev) = (if NATIVE = d then mulFloor F (percent Gen.sg1_FEE_BURN_PERCENT) else 0) := by
-  rw [fairBurn_eq]
   have h0 := mulFloor_le F _ burnPercent_le
-  generalize mulFloor F (percent Gen.sg1_FEE_BURN_PERCENT) = bf at h0 ⊢
-  have key := burn_then_flow d
-    (match dev with
-      | some dv => Msg.send dv ⟨NATIVE, F - bf⟩
-      | none => Msg.fundPool self ⟨NATIVE, F - bf⟩) bf (F - bf)
-    (by cases dev <;> rfl) (by cases dev <;> rfl) (by cases dev <;> simp [msgDest])
-  rw [key.1, key.2]
-  have e : bf + (F - bf) = F := by omega
-  rw [e]; exact ⟨rfl, rfl⟩
+  cases dev with
+  | none =>
+    rw [fairBurn_none]
+    generalize mulFloor F (percent Gen.sg1_FEE_BURN_PERCENT) = bf at h0 ⊢
+    have key := burn_pool_flow d self bf (F - bf)
+    rw [key.1, key.2]
+    have e : bf + (F - bf) = F := by omega
+    rw [e]; exact ⟨rfl, rfl⟩
+  | some dv =>
+    rw [fairBurn_some]
+    generalize mulFloor F (percent Gen.sg1_FEE_BURN_PERCENT) = bf at h0 ⊢
+    have key := burn_send_flow d dv bf (F - bf)
+    rw [key.1, key.2]
+    have e : bf + (F - bf) = F := by omega
+    rw [e]; exact ⟨rfl, rfl⟩
 
 /-! ## Ledger of single bank operations -/
 
@@ -273,16 +287,26 @@ theorem sendAll_ledger {src dst : Addr} (cs : List Coin) {b b' : Bank} (h : b.se
       obtain ⟨sm, sb, _, _⟩ := send_meta hb1
       refine ⟨?_, by rw [i2, sb], by rw [i3, sm]⟩
       simp only [coinsIn]
-      by_cases h1 : a = src <;> by_cases h2 : a = dst <;> by_cases h3 : c.denom = d <;>
-        simp [h1, h2, h3, eq_comm] at i1 s1 ⊢ <;> omega
+      by_cases h3 : d = c.denom
+      · subst h3
+        by_cases h1 : a = src <;> by_cases h2 : a = dst
+        all_goals (try subst h1); (try subst h2)
+        all_goals simp_all
+        all_goals omega
+      · have h3' : ¬ c.denom = d := fun e => h3 e.symm
+        by_cases h1 : a = src <;> by_cases h2 : a = dst
+        all_goals (try subst h1); (try subst h2)
+        all_goals simp_all
 
 theorem coinsIn_filter (d : Denom) (cs : List Coin) : coinsIn d (cs.filter fun c => c.amount != 0) = coinsIn d cs := by
   induction cs with
   | nil => rfl
   | cons c cs ih =>
+    rw [List.filter_cons]
     by_cases hz : c.amount = 0
-    · simp [List.filter, hz, coinsIn, ih]
-    · simp [List.filter, hz, coinsIn, ih]
+    · simp [hz, coinsIn, ih]
+    · have hb : (c.amount != 0) = true := by simp [hz]
+      simp [hb, coinsIn, ih]
 
 theorem sendFunds_ledger {src dst : Addr} {funds : List Coin} {b b' : Bank} (h : b.sendFunds src dst funds = some b')
     (a : Addr) (d : Denom) :
@@ -426,7 +450,215 @@ theorem total_fund (b : Bank) (dst : Addr) (c : Coin) (accts : List Addr) (hn : 
   have m : (b.fund dst c).minted d = if d = c.denom then b.minted d + c.amount else b.minted d := by simp [Bank.fund]
   have bu : (b.fund dst c).burned d = b.burned d := by simp [Bank.fund, Bank.credit]
   by_cases hdd : d = c.denom
+  · subst hdd; simp at v m; rw [bu]; omega
   · simp [hdd] at v m; rw [bu]; omega
-  · simp [hdd] at v m; rw [bu]; omega
+
+/-! ## What a successful `payMint` looks like -/
+
+theorem mayPay_ok {funds : List Coin} {d : Denom} {n : Nat} (h : mayPay funds d = .ok n) :
+    (funds = [] ∧ n = 0) ∨ funds = [⟨d, n⟩] := by
+  unfold mayPay at h
+  split at h
+  · left; cases h; exact ⟨rfl, rfl⟩
+  · rename_i c
+    split at h
+    · right; cases h; cases c; simp_all
+    · cases h
+  · cases h
+
+theorem mustPay_ok {funds : List Coin} {d : Denom} {n : Nat} (h : mustPay funds d = .ok n) :
+    funds = [⟨d, n⟩] ∧ n ≠ 0 := by
+  unfold mustPay at h
+  split at h
+  · rename_i c
+    split at h
+    · cases h
+    · split at h
+      · cases h; cases c; simp_all
+      · cases h
+  · cases h
+
+theorem splitWith_ok {v : Variant} {f : Factory} {m : Minter} {price : Coin} {fee : Nat} {ms : List Msg}
+    (h : splitWith v f m price fee = .ok ms) :
+    fee ≤ price.amount ∧ ms = feeMsgs v f price fee ++ sellerMsgs v m price fee := by
+  unfold splitWith at h
+  split at h
+  · cases h
+  · rename_i hlt
+    cases h
+    exact ⟨Nat.le_of_not_lt hlt, rfl⟩
+
+theorem paySale_ok {v : Variant} {f : Factory} {m : Minter} {now : Nat} {ad : Bool} {funds : List Coin} {price : Coin}
+    {ms : List Msg} (h : paySale v f m now ad funds = .ok (price, ms)) :
+    selectPrice v f m now ad = .ok price ∧ mayPay funds price.denom = .ok price.amount ∧
+    networkFee f ad price ≤ price.amount ∧
+    ms = feeMsgs v f price (networkFee f ad price) ++ sellerMsgs v m price (networkFee f ad price) := by
+  unfold paySale at h
+  split at h
+  · cases h
+  · rename_i p hp
+    split at h
+    · cases h
+    · rename_i pay hpay
+      split at h
+      · cases h
+      · rename_i hpe
+        have hpe' : pay = p.amount := Classical.not_not.mp hpe
+        subst hpe'
+        split at h
+        · cases h
+        · rename_i ms' hms
+          cases h
+          obtain ⟨hle, rfl⟩ := splitWith_ok hms
+          exact ⟨hp, hpay, hle, rfl⟩
+theorem cfb_ok (self fee : Nat) (hnz : fee ≠ 0) :
+  Sg1.checkedFairBurn [⟨NATIVE, fee⟩] self fee none = .ok (Sg1.fairBurn self fee none) := by
+        simp [Sg1.checkedFairBurn, mayPay, hnz, bind, Except.bind, pure, Except.pure]
+
+theorem payBaseWith_ok {fee : Nat} {m : Minter} {funds : List Coin} {price : Coin} {ms : List Msg}
+    (h : payBaseWith fee m funds = .ok (price, ms)) :
+    funds = [⟨NATIVE, fee⟩] ∧ fee ≠ 0 ∧ price = ⟨NATIVE, fee⟩ ∧ ms = Sg1.fairBurn m.addr fee none := by
+  unfold payBaseWith at h
+  split at h
+  · cases h
+  · rename_i sent hsent
+    obtain ⟨hf, hnz⟩ := mustPay_ok hsent
+    split at h
+    · cases h
+    · rename_i hfe
+      have hfe' : fee = sent := Classical.not_not.mp hfe
+      subst hfe'
+      subst hf
+      rw [cfb_ok _ _ hnz] at h
+      cases h
+      exact ⟨rfl, hnz, rfl, rfl⟩
+
+theorem payBase_ok {f : Factory} {m : Minter} {funds : List Coin} {price : Coin} {ms : List Msg}
+    (h : payBase f m funds = .ok (price, ms)) :
+    funds = [⟨NATIVE, mulFloor m.mintPrice.amount (bps f.mintFeeBps)⟩] ∧
+    mulFloor m.mintPrice.amount (bps f.mintFeeBps) ≠ 0 ∧
+    price = ⟨NATIVE, mulFloor m.mintPrice.amount (bps f.mintFeeBps)⟩ ∧
+    ms = Sg1.fairBurn m.addr (mulFloor m.mintPrice.amount (bps f.mintFeeBps)) none :=
+  payBaseWith_ok h
+
+/-- fee distribution + seller payout move exactly the price out of the minter, in the price's denom, burning nothing -/
+theorem sale_flow (v : Variant) (f : Factory) (m : Minter) (price : Coin) (fee : Nat) (hle : fee ≤ price.amount) (d : Denom) :
+    outflow d (feeMsgs v f price fee ++ sellerMsgs v m price fee) = (if price.denom = d then price.amount else 0) ∧
+    burnt d (feeMsgs v f price fee ++ sellerMsgs v m price fee) = 0 := by
+  rw [outflow_append, burnt_append]
+  have hf : outflow d (feeMsgs v f price fee) = (if price.denom = d then fee else 0) ∧ burnt d (feeMsgs v f price fee) = 0 := by
+    unfold feeMsgs
+    by_cases h0 : fee = 0
+    · simp [h0, outflow, burnt]
+    · simp only [h0, if_false]; exact distribute_outflow _ _ _ _ _
+  have hs : outflow d (sellerMsgs v m price fee) = (if price.denom = d then price.amount - fee else 0) ∧
+      burnt d (sellerMsgs v m price fee) = 0 := by
+    unfold sellerMsgs
+    by_cases h0 : price.amount - fee = 0
+    · simp [h0, outflow, burnt]
+    · simp only [h0, if_false, outflow, burnt, msgDest, Msg.denom, Msg.amount]
+      by_cases hd : price.denom = d <;> simp [hd]
+  rw [hf.1, hf.2, hs.1, hs.2]
+  by_cases hd : price.denom = d <;> simp [hd]; omega
+
+/-- every account a sale can credit -/
+def recipients (v : Variant) (f : Factory) (m : Minter) : List Addr :=
+  [LIQUIDITY_DAO, LAUNCHPAD_DAO, FAIRBURN_POOL, f.devAddr, sellerOf v m]
+
+theorem sale_dests (v : Variant) (f : Factory) (m : Minter) (price : Coin) (fee : Nat) :
+    ∀ x ∈ feeMsgs v f price fee ++ sellerMsgs v m price fee, ∀ a, msgDest x = some a → a ∈ recipients v f m := by
+  intro x hx a ha
+  rw [List.mem_append] at hx
+  cases hx with
+  | inl hx =>
+    unfold feeMsgs at hx
+    by_cases h0 : fee = 0
+    · simp [h0] at hx
+    · simp only [h0, if_false] at hx
+      have hdev : devOf v f = none ∨ devOf v f = some f.devAddr := by
+        unfold devOf; cases v.family <;> simp
+      cases hdev with
+      | inl hn =>
+        rw [hn, distribute_none] at hx
+        simp only [List.mem_cons, List.not_mem_nil, or_false] at hx
+        cases hx with
+        | inl e => subst e; simp [msgDest] at ha; subst ha; simp [recipients]
+        | inr e => subst e; simp [msgDest] at ha; subst ha; simp [recipients]
+      | inr hsome =>
+        rw [hsome, distribute_some] at hx
+        simp only [List.mem_cons, List.not_mem_nil, or_false] at hx
+        rcases hx with e | e | e
+        · subst e; simp [msgDest] at ha; subst ha; simp [recipients]
+        · subst e; simp [msgDest] at ha; subst ha; simp [recipients]
+        · subst e; simp [msgDest] at ha; subst ha; simp [recipients]
+  | inr hx =>
+    unfold sellerMsgs at hx
+    by_cases h0 : price.amount - fee = 0
+    · simp [h0] at hx
+    · simp only [h0, if_false, List.mem_cons, List.not_mem_nil, or_false] at hx
+      subst hx; simp [msgDest] at ha; subst ha; simp [recipients]
+
+theorem fairBurn_dests (self : Addr) (F : Nat) :
+    ∀ x ∈ Sg1.fairBurn self F none, ∀ a, msgDest x = some a → a = FAIRBURN_POOL := by
+  intro x hx a ha
+  rw [fairBurn_none] at hx
+  simp only [List.mem_cons, List.not_mem_nil, or_false] at hx
+  cases hx with
+  | inl e => subst e; simp [msgDest] at ha
+  | inr e => subst e; simp [msgDest] at ha; exact ha.symm
+
+theorem inflow_zero (a : Addr) (d : Denom) (ms : List Msg) (h : ∀ x ∈ ms, msgDest x ≠ some a) : inflow a d ms = 0 := by
+  induction ms with
+  | nil => rfl
+  | cons x xs ih =>
+    have hx := h x (List.mem_cons_self ..)
+    have ih := ih (fun y hy => h y (List.mem_cons_of_mem _ hy))
+    simp [inflow, hx, ih]
+
+/-- the messages of any successful `payMint` only credit `recipients`, and (token-merge deposits aside) move exactly
+`price` out of the minter -/
+theorem payMint_dests {v : Variant} {f : Factory} {m : Minter} {now : Nat} {ad : Bool} {funds : List Coin} {price : Coin}
+    {ms : List Msg} (h : payMint v f m now ad funds = .ok (price, ms)) :
+    ∀ x ∈ ms, ∀ a, msgDest x = some a → a ∈ recipients v f m := by
+  have sale : paySale v f m now ad funds = .ok (price, ms) → ∀ x ∈ ms, ∀ a, msgDest x = some a → a ∈ recipients v f m := by
+    intro hs
+    obtain ⟨_, _, _, rfl⟩ := paySale_ok hs
+    exact sale_dests v f m price _
+  unfold payMint at h
+  split at h
+  · obtain ⟨_, _, _, rfl⟩ := payBase_ok h
+    intro x hx a ha
+    have := fairBurn_dests _ _ x hx a ha
+    subst this; simp [recipients]
+  · split at h
+    · exact sale h
+    · cases h; intro x hx; cases hx
+  · exact sale h
+
+theorem payMint_flow {v : Variant} {f : Factory} {m : Minter} {now : Nat} {ad : Bool} {funds : List Coin} {price : Coin}
+    {ms : List Msg} (h : payMint v f m now ad funds = .ok (price, ms)) (d : Denom) :
+    outflow d ms = (if price.denom = d then price.amount else 0) ∧
+    (v.family ≠ .base → burnt d ms = 0) ∧
+    (v.family = .base → burnt d ms = if NATIVE = d then mulFloor price.amount (percent Gen.sg1_FEE_BURN_PERCENT) else 0) := by
+  have sale : paySale v f m now ad funds = .ok (price, ms) →
+      outflow d ms = (if price.denom = d then price.amount else 0) ∧ burnt d ms = 0 := by
+    intro hs
+    obtain ⟨_, _, hle, rfl⟩ := paySale_ok hs
+    exact sale_flow v f m price _ hle d
+  unfold payMint at h
+  split at h
+  · rename_i hb
+    obtain ⟨_, _, rfl, rfl⟩ := payBase_ok h
+    have := fairBurn_outflow m.addr (mulFloor m.mintPrice.amount (bps f.mintFeeBps)) none d
+    exact ⟨this.1, fun hne => absurd hb hne, fun _ => this.2⟩
+  · rename_i ht
+    split at h
+    · have := sale h
+      exact ⟨this.1, fun _ => this.2, fun hb => by rw [ht] at hb; cases hb⟩
+    · cases h
+      refine ⟨by simp [outflow], fun _ => rfl, fun hb => by rw [ht] at hb; cases hb⟩
+  · rename_i hnb hnt
+    have := sale h
+    exact ⟨this.1, fun _ => this.2, fun hb => absurd hb hnb⟩
 
 end LP.MintPay
